@@ -41,8 +41,8 @@ inductive Msg where
   | sysError                 -- ERROR with a str payload (runtime error of a node)
   | other (k : Nat)          -- any other message
   | broken                   -- truncated frame: `recv` raises OSError('got end of file during message')
-  | request (m : Nat)        -- client REQUEST (Compiler.result)
-  | submit                   -- client SUBMIT
+  | request (k : Nat)        -- client REQUEST (Compiler.result) for the client's k-th task id
+  | submit (k : Nat)         -- client SUBMIT of its k-th task (a fresh uuid)
   | disconnect               -- client DISCONNECT
   | error                    -- server -> client ERROR
   | reply (k : Nat)          -- server -> client STATUS / CANCEL / READY
@@ -94,6 +94,7 @@ structure State where
   boxes : List (Nat × Box)        -- self.mailboxes (with owners)
   counter : Nat                   -- self.mailbox_counter
   owner : List (Nat × Nat)        -- ghost: mailbox id -> client, never removed
+  tasks : List ((Nat × Nat) × Nat) -- self.tasks: task id (client, k) -> mailbox id
   copen : Nat → Bool              -- server's end of client connection c (c in self.clients)
   cconn : Nat → Bool              -- Compiler.conn is not None
   toClient : Nat → List Msg       -- server -> client, in flight
@@ -118,6 +119,7 @@ def init : State where
   boxes := []
   counter := 0
   owner := []
+  tasks := []
   copen := fun _ => true
   cconn := fun _ => true
   toClient := fun _ => []
@@ -203,16 +205,25 @@ def clientGone (t : Topo) (s : State) (c : Nat) (emits : List (Dest × Msg)) : S
     ({ s with copen := upd s.copen c false,
               boxes := s.boxes.filter (fun p => p.2.owner != c) }).put 0 emits
 
-/-- `handle_request` -/
-def handleRequest (t : Topo) (s : State) (c m : Nat) (emits : List (Dest × Msg)) : State :=
-  match getBox s.boxes m with
-  | some b =>
-    if b.owner = c then
-      match b.result with
-      | some v => ({ s with boxes := delBox s.boxes m }).put 0 [(.client c, .result m v)]
-      | none => { s with boxes := setBox s.boxes m { b with waiting := true } }
-    else clientGone t (s.put 0 [(.client c, .error)]) c emits
-  | none => clientGone t (s.put 0 [(.client c, .error)]) c emits
+def getTask : List ((Nat × Nat) × Nat) → Nat × Nat → Option Nat
+  | [], _ => none
+  | (k, m) :: t, x => if k = x then some m else getTask t x
+
+/-- `handle_request`: `request not in self.clients[conn] or request not in self.tasks` ->
+ERROR 'Unknown task.' and the client is disconnected; otherwise ship or mark waiting -/
+def handleRequest (t : Topo) (s : State) (c k : Nat) (emits : List (Dest × Msg)) : State :=
+  let bad := clientGone t (s.put 0 [(.client c, .error)]) c emits
+  match getTask s.tasks (c, k) with
+  | none => bad
+  | some m =>
+    match getBox s.boxes m with
+    | some b =>
+      if b.owner = c then
+        match b.result with
+        | some v => ({ s with boxes := delBox s.boxes m }).put 0 [(.client c, .result m v)]
+        | none => { s with boxes := setBox s.boxes m { b with waiting := true } }
+      else bad
+    | none => bad
 
 /-- `handle_result` for a client mailbox -/
 def handleResult (s : State) (m v : Nat) : State :=
@@ -223,9 +234,10 @@ def handleResult (s : State) (m v : Nat) : State :=
     else { s with boxes := setBox s.boxes m { b with result := some v } }
 
 /-- `handle_new_comp_task` -/
-def handleSubmit (s : State) (c : Nat) (emits : List (Dest × Msg)) : State :=
+def handleSubmit (s : State) (c k : Nat) (emits : List (Dest × Msg)) : State :=
   ({ s with boxes := setBox s.boxes s.counter ⟨c, none, false⟩,
             owner := (s.counter, c) :: s.owner,
+            tasks := ((c, k), s.counter) :: s.tasks,
             counter := s.counter + 1 }).put 0 emits
 
 /-! ### the client (`Compiler`) -/
@@ -333,8 +345,8 @@ def recvClient (t : Topo) (s : State) (c : Nat) (emits : List (Dest × Msg)) (fa
     let s := { s with toServer := upd s.toServer c rest }
     match m with
     | .disconnect => some (clientGone t s c emits)
-    | .submit => some (handleSubmit s c emits)
-    | .request mm => some (handleRequest t s c mm emits)
+    | .submit k => some (handleSubmit s c k emits)
+    | .request k => some (handleRequest t s c k emits)
     | .other _ => if fails then some (systemError t s 0) else some (s.put 0 emits)
     | _ => some (systemError t s 0)
 
@@ -419,7 +431,7 @@ def wrecv (t : Topo) (s : State) (w : Nat) : Option State :=
     | _ => some s
 
 def okReq : Msg → Bool
-  | .request _ => true | .submit => true | .other _ => true | _ => false
+  | .request _ => true | .submit _ => true | .other _ => true | _ => false
 
 /-- a client enters `submit` (`_send`) or `result/status/cancel` (`_send_recv`) -/
 def ccall (s : State) (c : Nat) (req : Msg) : Option State :=
@@ -431,7 +443,7 @@ def ccall (s : State) (c : Nat) (req : Msg) : Option State :=
   else
     some { s with toClient := upd s.toClient c [],
                   toServer := upd s.toServer c (s.toServer c ++ [req]),
-                  cwait := upd s.cwait c (req != .submit) }
+                  cwait := upd s.cwait c (match req with | .submit _ => false | _ => true) }
 
 /-- a blocked client's `recv` returns: everything readable is processed -/
 def cwake (s : State) (c : Nat) : Option State :=
